@@ -409,9 +409,19 @@ Lemma paths_close : forall p ls, path_ok p ->
   (match p with PWrap _ _ => r <> ROk | _ => True end) ->
   forall i, In i (leaves (tr_base (path_tr p))) -> w_leaf w' i = true.
 Proof.
-  intros p ls Hok. destruct p as [t | t | c b | t | t | t | t inner | t]; simpl run_path; simpl path_tr.
-  8:{ pose proof (forceful_tr_closes t env0 (world0 false) ls (world0_fresh t)) as H.
+  intros p ls Hok. destruct p as [t | t | c b | t | t | t | t inner | t | t | t | t]; simpl run_path; simpl path_tr.
+  11:{ pose proof (forceful_tr_closes t env0 (world0 false) ls (world0_fresh t)) as H.
       destruct (forceful (tr_aclose t) env0 (world0 false) ls) as [[r w'] ls']. intros _. apply H. }
+  8:{ unfold then_raises.
+      pose proof (endpoint_closes t env0 (world0 false) ls (world0_fresh t) eq_refl) as H.
+      destruct (guarded_aclose t env0 (world0 false) ls) as [[r w'] ls']. intros _. exact H. }
+  8:{ unfold then_raises.
+      pose proof (client_closes_free t env0 (world0 false) ls (world0_fresh t) eq_refl eq_refl) as H.
+      destruct (client_aclose t env0 (world0 false) ls) as [[r w'] ls']. intros _. exact H. }
+  8:{ unfold client_task_exit.
+      pose proof (forceful_tr_closes t env0 (world0 false) ls (world0_fresh t)) as H.
+      destruct (forceful (tr_aclose t) env0 (world0 false) ls) as [[r w'] ls']. destruct H as [H _].
+      destruct r; intros _; exact H. }
   - pose proof (tr_aclose_closes t env0 (world0 false) ls (world0_fresh t)) as H.
     destruct (tr_aclose t env0 (world0 false) ls) as [[r w'] ls']. intros _. apply H.
   - pose proof (forceful_tr_closes t env0 (world0 false) ls (world0_fresh t)) as H.
@@ -575,7 +585,7 @@ Lemma paths_close_all : forall p ls,
   (match p with PWrap _ _ => r <> ROk | _ => True end) ->
   forall i, In i (leaves (tr_base (path_tr p))) -> w_leaf w' i = true.
 Proof.
-  intros p ls. destruct p as [t | t | c b | t | t | t | t inner | t];
+  intros p ls. destruct p as [t | t | c b | t | t | t | t inner | t | t | t | t];
     try (match goal with |- context [run_path ?q _ _ _] => exact (paths_close q ls Logic.I) end).
   pose proof (teardown_closes t inner false ls) as H.
   destruct (run_path (PTaskExit t inner) env0 (world0 false) ls) as [[r w'] ls']. intros _. exact H.
